@@ -129,6 +129,38 @@ class EpisodeMonitor:
                 if o["execs"] != 0:
                     self.fail("C19", f"{op}: ttl = {s['ttl']} is written on the function, a cached entry of age {age} ms was not served")
 
+        # C08 / C19: an async LFU / ARC / TLRU cache with an entry limit evicts, on the store of a NEW key into a FULL cache, the entry
+        # with the lowest documented score — hits (LFU), hits x rank (ARC), hits^frequency_weight x rank (TLRU, no ttl) — the weight
+        # being the one WRITTEN on the attribute, wherever in the list it stands
+        if before and d is not None and s["is_async"] and s["policy"] in ("lfu", "arc", "tlru") and s["limit"] and not s["use_mem"] \
+                and s["ttl"] is None and o.get("kind") == "call" and o.get("execs") == 1 and key not in before[0] and key in d[0] \
+                and len(before[0]) == s["limit"] and set(before[1]) == set(before[0]) and len(before[1]) == len(before[0]):
+            removed = [k for k in before[0] if k not in d[0]]
+            if len(removed) == 1:
+                fwtxt = s["line"].split("|")[5].split(" ")[5]
+                fw = None if fwtxt == "-" else float(fwtxt)
+                def score(idx, k):
+                    hits = before[0][k][3]
+                    if s["policy"] == "lfu":
+                        return float(hits)
+                    if s["policy"] == "arc" or fw is None:
+                        return float(hits) * (idx + 1)
+                    try:
+                        w = (float(hits) ** fw) if hits > 0 else 0.0
+                    except OverflowError:       # Rust's powf saturates to +inf
+                        w = float("inf")
+                    return w * (idx + 1)
+                sc = [(score(i, k), i, k) for i, k in enumerate(before[1])]
+                best = min(sc)
+                vict = [x for x in sc if x[2] == removed[0]][0]
+                self.ev("c08-l2-victim-checked")
+                # decisive only: the evicted entry's score is clearly above the minimum (no verdict on ties / near ties)
+                if vict[0] != float("inf") and best[0] != float("inf") and vict[0] > best[0] * (1 + 1e-9) + 1e-12:
+                    msg = (f"{op}: async {s['policy']} cache (limit {s['limit']}, frequency_weight {fwtxt}) evicted {removed[0][:20]} with documented score "
+                           f"{vict[0]:.6g} although {best[2][:20]} scores {best[0]:.6g}")
+                    self.fail("C08", msg)
+                    self.fail("C19", msg + " — the attribute values do not govern the eviction as written")
+
     def async_consistent(self, op, inst, dumps):
         """C20: an async cache is consistent at every point a call can be suspended, dropped or resumed"""
         d = dumps.get(inst)
